@@ -926,6 +926,10 @@ struct GenCfg {
     steps: usize,
     inject: bool,
     resets: bool,
+    /// slaves that stay "not ready" for 3..8 diagnostics polls after Chk_Cfg (fault-free tail), small max_retry
+    slow: bool,
+    /// the token keeps arriving late: about every second transmit call is HighPrioOnly::Yes
+    late: bool,
 }
 
 fn gen_reply_spec(rng: &mut Rng) -> String {
@@ -976,13 +980,16 @@ fn gen_case(rng: &mut Rng, g: &GenCfg) -> String {
     let addr = if rng.chance(3, 4) { 1 + rng.below(8) as u8 } else { rng.below(126) as u8 };
     let baud = if rng.chance(1, 2) { 1 } else { rng.below(11) as usize };
     let slot_bits = MIN_SLOT[baud] + if rng.chance(1, 3) { rng.below(400) as u16 } else { 0 };
-    let max_retry = match rng.below(10) {
+    let mut max_retry = match rng.below(10) {
         0..=4 => 1,
         5 | 6 => 2,
         7 => 3,
         8 => 1 + rng.below(15) as u8,
         _ => 15,
     };
+    if g.slow {
+        max_retry = 1 + rng.below(3) as u8;
+    }
     let min_tsdr = if rng.chance(2, 3) { 11 } else { 11 + rng.below(245) as u8 };
     let wd = match rng.below(6) {
         0 | 1 | 2 => "-".to_string(),
@@ -1117,7 +1124,12 @@ fn gen_case(rng: &mut Rng, g: &GenCfg) -> String {
         if rng.chance(1, 12) {
             user(rng, &mut ops, false);
         }
-        ops.push(if rng.chance(1, 40) { "X1".into() } else { "X0".into() });
+        let hp = if g.late { rng.chance(1, 2) } else { rng.chance(1, 40) };
+        if g.late && rng.chance(1, 10) {
+            // long enough for the next Global_Control to be due
+            ops.push(format!("T{}", 300_000 + rng.below(400_000)));
+        }
+        ops.push(if hp { "X1".into() } else { "X0".into() });
         if rng.chance(1, 10) {
             user(rng, &mut ops, true);
         }
@@ -1159,20 +1171,26 @@ fn gen_case(rng: &mut Rng, g: &GenCfg) -> String {
         // faults end: every device behaves, nothing is lost any more
         ops.push("D".into());
         ops.push("OP".into());
+        let mut max_delay = 0usize;
         for k in 0..nper {
-            ops.push(format!("SF{}:0:0:0:0:0:0:-:{}", k, lens[k].0));
+            let rd = if g.slow && rng.chance(2, 3) { 3 + rng.below(6) as usize } else { 0 };
+            max_delay = max_delay.max(rd);
+            ops.push(format!("SF{}:0:{}:0:0:0:0:-:{}", k, rd, lens[k].0));
             if g.resets {
                 // back to the configured address: a new bring-up in the fault-free tail
                 ops.push(format!("RA{}:{}", k, paddrs[k]));
             }
         }
         ops.push("CLEAN".into());
-        let tail = 40 + nper * (14 + 3 * max_retry as usize) * 2;
+        let tail = 40 + nper * (14 + 3 * max_retry as usize) * 2 + (nper + 1) * 3 * max_delay;
         for _ in 0..tail {
             if rng.chance(1, 6) {
                 ops.push(format!("T{}", rng.below(2000)));
             }
-            ops.push("X0".into());
+            if g.late && rng.chance(1, 25) {
+                ops.push(format!("T{}", 300_000 + rng.below(400_000)));
+            }
+            ops.push(if g.late && rng.chance(1, 2) { "X1".into() } else { "X0".into() });
             ops.push("D".into());
         }
     }
@@ -1189,17 +1207,17 @@ pub fn gen(seed: u64, thorough: bool, out: &mut dyn FnMut(String)) {
     }
     // clean bring-up and data exchange, no faults
     for i in 0..500 * scale {
-        let g = GenCfg { nper: 1 + (i % 4), big: i % 7 == 0, faults: false, clean_tail: false, steps: 20 + rng.below(60) as usize, inject: false, resets: i % 3 == 0 };
+        let g = GenCfg { nper: 1 + (i % 4), big: i % 7 == 0, faults: false, clean_tail: false, steps: 20 + rng.below(60) as usize, inject: false, resets: i % 3 == 0, slow: false, late: i % 5 == 2 };
         out(gen_case(&mut rng, &g));
     }
     // fault histories
     for i in 0..3000 * scale {
-        let g = GenCfg { nper: i % 5, big: i % 9 == 0, faults: true, clean_tail: false, steps: 20 + rng.below(140) as usize, inject: i % 4 == 0, resets: i % 3 == 1 };
+        let g = GenCfg { nper: i % 5, big: i % 9 == 0, faults: true, clean_tail: false, steps: 20 + rng.below(140) as usize, inject: i % 4 == 0, resets: i % 3 == 1, slow: false, late: i % 6 == 3 };
         out(gen_case(&mut rng, &g));
     }
     // fault histories followed by a fault-free tail (recovery, C07)
     for i in 0..1200 * scale {
-        let g = GenCfg { nper: 1 + (i % 4), big: false, faults: true, clean_tail: true, steps: 10 + rng.below(80) as usize, inject: i % 2 == 0, resets: i % 4 == 1 };
+        let g = GenCfg { nper: 1 + (i % 4), big: false, faults: true, clean_tail: true, steps: 10 + rng.below(80) as usize, inject: i % 2 == 0, resets: i % 4 == 1, slow: i % 3 == 0, late: i % 7 == 2 };
         out(gen_case(&mut rng, &g));
     }
 }
